@@ -375,15 +375,31 @@ func augmentOp(op *orderedmap.OrderedMap[string, any], v *orderedmap.OrderedMap[
 	return *augmentedOp
 }
 
+// withinSearchUserDocument reports whether the last key of keyPath lies inside the documents given to
+// moreLikeThis.like (the one Atlas Search argument that holds user documents).
+func withinSearchUserDocument(keyPath []string) bool {
+	for i := 0; i+2 < len(keyPath); i++ {
+		if keyPath[i] == "moreLikeThis" && keyPath[i+1] == "like" {
+			return true
+		}
+	}
+	return false
+}
+
 func getOp(keyPath []string, isSearchStage bool) (interface{}, bool) {
 	if isSearchStage {
 		searchOpMeta, isSearchOp := traverseMapPath(keyPath, SearchAggregationOperators, true)
 		if isSearchOp {
 			return searchOpMeta, true
 		}
-		coreSearchOpMeta, isCoreSearchOp := SearchOperators.Get(keyPath[len(keyPath)-1])
-		if isCoreSearchOp {
-			return coreSearchOpMeta, true
+		// Below moreLikeThis.like the keys are field names of user documents, not search operators or
+		// options: they must not be classified by their spelling (a field called "numBuckets" or "score"
+		// would otherwise be exempt from redaction).
+		if !withinSearchUserDocument(keyPath) {
+			coreSearchOpMeta, isCoreSearchOp := SearchOperators.Get(keyPath[len(keyPath)-1])
+			if isCoreSearchOp {
+				return coreSearchOpMeta, true
+			}
 		}
 	} else {
 		coreOpMeta, isCoreOp := CoreOperators.Get(keyPath[len(keyPath)-1])
